@@ -1,16 +1,26 @@
-"""String-level assumed contracts: int()/float() accepted languages, split, regex."""
+"""String-level assumed contracts: int()/float()/strptime accepted languages, regex search.
+
+A-INT / A-FLOAT / A-STRPTIME / A-RE: the regular languages below are what CPython 3.12 accepts (validated in the
+thorough tier of C19 by exhaustive comparison with CPython on short strings over a small alphabet - bounded
+validation of an assumption)."""
 from __future__ import annotations
+
+import unicodedata
 
 import z3
 
-from .core import Outside, SBool, SInt, SStr, _t
+from .core import Outside, SBool, SInt, SReal, SStr, Sym, _t
 
 DIG = z3.Range("0", "9")
 WS_CHARS = [" ", "\t", "\n", "\r", "\x0b", "\x0c", "\x1c", "\x1d", "\x1e", "\x1f", "\x85", "\xa0"]
+# further Unicode white space str.strip() / int() / float() skip
+WS_UNI = [" ", " ", " ", " ", " ", " ", " ", " ", " ", " ",
+          " ", " ", " ", " ", " ", " ", "　"]
 
 
-def re_ws():
-    return z3.Star(z3.Union(*[z3.Re(c) for c in WS_CHARS]))
+def re_ws(unicode_ws=False):
+    cs = WS_CHARS + (WS_UNI if unicode_ws else [])
+    return z3.Star(z3.Union(*[z3.Re(c) for c in cs]))
 
 
 def canon_int_re():
@@ -36,9 +46,344 @@ def canon_int_value(I, v):
     return SInt(z3.If(canon, z3.If(neg, -z3.StrToInt(mag), z3.StrToInt(mag)), valf(t)))
 
 
+# ---------------------------------------------------------------------------
+# Unicode decimal digits (category Nd): what \d and int()/float() accept besides 0-9
+# ---------------------------------------------------------------------------
+
+_ND = None
+
+
+def nd_ranges():
+    global _ND
+    if _ND is None:
+        out = []
+        start = prev = None
+        for cp in range(0x80, 0x2FFFF):
+            if unicodedata.category(chr(cp)) == "Nd":
+                if start is None:
+                    start = prev = cp
+                elif cp == prev + 1:
+                    prev = cp
+                else:
+                    out.append((start, prev))
+                    start = prev = cp
+        if start is not None:
+            out.append((start, prev))
+        _ND = out
+    return _ND
+
+
+def re_udigit():
+    """one decimal digit as int() / \\d see it: ASCII or any other Nd code point."""
+    return z3.Union(DIG, *[z3.Range(chr(a), chr(b)) for a, b in nd_ranges()])
+
+
+def re_nonascii():
+    return z3.Range(chr(0x80), chr(0x2FFFF))
+
+
+def re_any():
+    return z3.Range(chr(0), chr(0x2FFFF))
+
+
+def re_times(r, lo, hi=None):
+    hi = lo if hi is None else hi
+    return z3.Loop(r, lo, hi)
+
+
+# ---------------------------------------------------------------------------
+# int(str) / float(str) for the lexical-space proofs (C19): Unicode aware
+# ---------------------------------------------------------------------------
+
+
+def py_int_accept_re_full():
+    d = re_udigit()
+    digits = z3.Concat(z3.Plus(d), z3.Star(z3.Concat(z3.Re("_"), z3.Plus(d))))
+    return z3.Concat(re_ws(True), z3.Option(z3.Union(z3.Re("+"), z3.Re("-"))), digits, re_ws(True))
+
+
+def _ci(word):
+    return z3.Concat(*[z3.Union(z3.Re(c.lower()), z3.Re(c.upper())) for c in word])
+
+
+def re_float_infnan():
+    body = z3.Union(_ci("inf"), _ci("infinity"), _ci("nan"))
+    return z3.Concat(re_ws(True), z3.Option(z3.Union(z3.Re("+"), z3.Re("-"))), body, re_ws(True))
+
+
+def py_float_accept_re():
+    d = re_udigit()
+    digs = z3.Concat(z3.Plus(d), z3.Star(z3.Concat(z3.Re("_"), z3.Plus(d))))
+    exp = z3.Concat(z3.Union(z3.Re("e"), z3.Re("E")), z3.Option(z3.Union(z3.Re("+"), z3.Re("-"))), digs)
+    mant = z3.Union(z3.Concat(digs, z3.Option(z3.Concat(z3.Re("."), z3.Option(digs)))), z3.Concat(z3.Re("."), digs))
+    num = z3.Concat(mant, z3.Option(exp))
+    sign = z3.Option(z3.Union(z3.Re("+"), z3.Re("-")))
+    return z3.Union(z3.Concat(re_ws(True), sign, num, re_ws(True)), re_float_infnan())
+
+
+def re_plain_decimal(maxlen=300):
+    """-?digits(.digits*)? of at most maxlen characters: always a finite float."""
+    r = z3.Concat(z3.Option(z3.Re("-")), z3.Plus(DIG), z3.Option(z3.Concat(z3.Re("."), z3.Star(DIG))))
+    return z3.Intersect(r, z3.Loop(re_any(), 0, maxlen))
+
+
+class SStrInt(SInt):
+    """int(<canonical decimal string>): comparisons with small constants are decided on the text (regular
+    languages), not by str.to_int arithmetic."""
+
+    __slots__ = ("src",)
+
+    def __init__(self, t, src):
+        super().__init__(t)
+        self.src = src
+
+
+def _nat_le(c):
+    """regex of canonical non-negative decimal strings (leading zeros allowed) with value <= c, 0 <= c <= 99."""
+    z = z3.Star(z3.Re("0"))
+    alts = []
+    if c < 10:
+        alts.append(z3.Range("0", str(c)))
+    else:
+        alts.append(DIG)
+        t, u = divmod(c, 10)
+        if t > 1:
+            alts.append(z3.Concat(z3.Range("1", str(t - 1)), DIG))
+        alts.append(z3.Concat(z3.Re(str(t)), z3.Range("0", str(u))))
+    return z3.Concat(z, z3.Union(*alts) if len(alts) > 1 else alts[0])
+
+
+def _nonneg():
+    return z3.Plus(DIG)
+
+
+def _negative():
+    return z3.Concat(z3.Re("-"), z3.Star(z3.Re("0")), z3.Range("1", "9"), z3.Star(DIG))
+
+
+def _zero():
+    return z3.Concat(z3.Option(z3.Re("-")), z3.Plus(z3.Re("0")))
+
+
+def re_int_cmp(op, c):
+    """regex over canonical strings -?[0-9]+ : int(s) <op> c, for small constants."""
+    import ast
+    if not isinstance(c, int) or not (-1 <= c <= 99):
+        return None
+    canon = canon_int_re()
+    if c >= 0:
+        le = z3.Union(_negative(), _zero(), _nat_le(c))  # value <= c
+        lt = z3.Union(_negative(), _nat_le(c - 1)) if c >= 1 else _negative()
+        if c >= 1:
+            lt = z3.Union(lt, _zero())
+        eq = z3.Intersect(le, z3.Complement(lt)) if c > 0 else _zero()
+    else:  # c == -1
+        return None
+    table = {ast.LtE: le, ast.Lt: lt, ast.Eq: eq,
+             ast.Gt: z3.Intersect(canon, z3.Complement(le)), ast.GtE: z3.Intersect(canon, z3.Complement(lt)),
+             ast.NotEq: z3.Intersect(canon, z3.Complement(eq))}
+    return table.get(type(op))
+
+
+def int_lexical(I, v):
+    """int(v) in the 'lexical' model: ValueError outside the accepted language; canonical text -> SStrInt;
+    other accepted spellings (white space, '+', '_', non-ASCII digits) -> uninterpreted value."""
+    t = v.t
+    if not I.ctx.branch(SBool(z3.InRe(t, py_int_accept_re_full()))):
+        I.raise_("ValueError", "invalid literal for int()")
+    if I.ctx.branch(SBool(z3.InRe(t, canon_int_re()))):
+        neg = z3.PrefixOf(z3.StringVal("-"), t)
+        mag = z3.If(neg, z3.SubString(t, 1, z3.Length(t) - 1), t)
+        return SStrInt(z3.If(neg, -z3.StrToInt(mag), z3.StrToInt(mag)), t)
+    valf = I.ufun("int_val", z3.StringSort(), z3.IntSort())
+    I.ctx.notes.append(("imprecise", "value of a non-canonical int literal is uninterpreted"))
+    return SInt(valf(t))
+
+
+def float_lexical(I, v):
+    from .models import SFloat
+    t = v.t
+    if not I.ctx.branch(SBool(z3.InRe(t, py_float_accept_re()))):
+        I.raise_("ValueError", "could not convert string to float")
+    valf = I.ufun("float_val", z3.StringSort(), z3.RealSort())
+    ovf = I.ufun("float_overflow", z3.StringSort(), z3.BoolSort())
+    # a plain decimal of moderate length never overflows to inf (A-FLOAT)
+    I.ctx.assume(SBool(z3.Implies(z3.InRe(t, re_plain_decimal()), z3.Not(ovf(t)))))
+    finite = z3.And(z3.Not(z3.InRe(t, re_float_infnan())), z3.Not(ovf(t)))
+    # replayable models: short strings without an exponent never overflow
+    anyc = z3.Star(re_any())
+    I.ctx.realism += [z3.Not(ovf(t)), z3.Not(z3.InRe(t, z3.Concat(anyc, z3.Union(z3.Re("e"), z3.Re("E")), anyc)))]
+    return SFloat(valf(t), finite)
+
+
+# ---------------------------------------------------------------------------
+# datetime.strptime
+# ---------------------------------------------------------------------------
+
+
+def strptime_re(fmt):
+    """Regular language of the strings _strptime's regex for `fmt` matches in full (CPython 3.12 directives used by
+    the code under contract; \\d is Unicode aware, %f is ASCII only)."""
+    d = re_udigit()
+    a = lambda lo, hi: z3.Range(lo, hi)  # noqa: E731
+    direct = {
+        "Y": z3.Concat(d, d, d, d),
+        "m": z3.Union(z3.Concat(z3.Re("1"), a("0", "2")), z3.Concat(z3.Re("0"), a("1", "9")), a("1", "9")),
+        "d": z3.Union(z3.Concat(z3.Re("3"), a("0", "1")), z3.Concat(a("1", "2"), d), z3.Concat(z3.Re("0"), a("1", "9")),
+                      a("1", "9"), z3.Concat(z3.Re(" "), a("1", "9"))),
+        "H": z3.Union(z3.Concat(z3.Re("2"), a("0", "3")), z3.Concat(a("0", "1"), d), d),
+        "M": z3.Union(z3.Concat(a("0", "5"), d), d),
+        "S": z3.Union(z3.Concat(z3.Re("6"), a("0", "1")), z3.Concat(a("0", "5"), d), d),
+        "f": z3.Loop(DIG, 1, 6),
+    }
+    parts = []
+    i = 0
+    while i < len(fmt):
+        c = fmt[i]
+        if c == "%":
+            i += 1
+            if i >= len(fmt) or fmt[i] not in direct:
+                raise Outside(f"strptime directive %{fmt[i:i+1]}")
+            parts.append(direct[fmt[i]])
+        elif c.isspace():
+            raise Outside("strptime format with white space")
+        else:
+            parts.append(z3.Re(c))
+        i += 1
+    return z3.Concat(*parts) if len(parts) > 1 else parts[0]
+
+
+def strptime_model(I, value, fmt):
+    """datetime.strptime(value, fmt): succeeds iff value is in the layout language and denotes a valid calendar
+    date (uninterpreted predicate cal_ok<fmt>, shared with the specification); ValueError otherwise."""
+    if not isinstance(fmt, str):
+        raise Outside("strptime with a non-literal format")
+    if not isinstance(value, SStr):
+        import datetime
+        try:
+            datetime.datetime.strptime(value, fmt)
+            return object()
+        except ValueError:
+            I.raise_("ValueError", "strptime")
+    # a layout with a date part: calendar validity (month lengths, leap years, year >= 1) is the shared predicate
+    cal = cal_ok(I, fmt, value.t) if "%Y" in fmt else z3.BoolVal(True)
+    if "%Y" in fmt and "%d" not in fmt:
+        # no day field: the only calendar condition is datetime's year >= 1 (a regular condition on the text)
+        cal = z3.Not(z3.InRe(value.t, z3.Concat(z3.Re("0000"), z3.Star(re_any()))))
+    elif "%Y" in fmt:
+        I.ctx.observe.setdefault("cal", {})[fmt] = SBool(cal)
+    ok = z3.And(z3.InRe(value.t, strptime_re(fmt)), cal)
+    if not I.ctx.branch(SBool(ok)):
+        I.raise_("ValueError", "time data does not match format")
+    from .interp import Opaque
+    return Opaque("datetime")
+
+
+def cal_ok(I, fmt, t):
+    f = I.ufun("cal_ok[" + fmt + "]", z3.StringSort(), z3.BoolSort())
+    return f(t)
+
+
+# ---------------------------------------------------------------------------
+# regex search (the one pattern the code uses)
+# ---------------------------------------------------------------------------
+
+
 def sym_split(I, s, a, k):
     raise Outside("split of a symbolic string")
 
 
+def regex_to_z3(pattern):
+    """Python `re` pattern (str, no flags) -> z3 regular expression; Outside for constructs not translated.
+    Anchors are only accepted at the ends (they are implied by fullmatch / handled by the caller)."""
+    import re._parser as sp
+    import re._constants as sc
+
+    def cls_item(op, av):
+        if op == sc.LITERAL:
+            return z3.Re(chr(av))
+        if op == sc.RANGE:
+            return z3.Range(chr(av[0]), chr(av[1]))
+        if op == sc.CATEGORY:
+            if av == sc.CATEGORY_DIGIT:
+                return re_udigit()
+            if av == sc.CATEGORY_SPACE:
+                return z3.Union(*[z3.Re(c) for c in WS_CHARS + WS_UNI])
+            raise Outside("regex category " + str(av))
+        raise Outside("regex class item " + str(op))
+
+    def one(x):
+        return z3.Intersect(x, z3.Loop(re_any(), 1, 1))
+
+    def seq(items):
+        parts = []
+        for op, av in items:
+            if op == sc.LITERAL:
+                parts.append(z3.Re(chr(av)))
+            elif op == sc.NOT_LITERAL:
+                parts.append(one(z3.Complement(z3.Re(chr(av)))))
+            elif op == sc.ANY:
+                parts.append(one(z3.Complement(z3.Re("\n"))))
+            elif op == sc.IN:
+                neg = av and av[0][0] == sc.NEGATE
+                body = [cls_item(o, a) for o, a in (av[1:] if neg else av)]
+                u = z3.Union(*body) if len(body) > 1 else body[0]
+                parts.append(one(z3.Complement(u)) if neg else u)
+            elif op in (sc.MAX_REPEAT, sc.MIN_REPEAT):
+                lo, hi, sub = av
+                r = seq(sub)
+                if hi == sc.MAXREPEAT:
+                    parts.append(z3.Concat(z3.Loop(r, lo, lo), z3.Star(r)) if lo > 1 else (z3.Plus(r) if lo == 1 else z3.Star(r)))
+                else:
+                    parts.append(z3.Loop(r, lo, hi))
+            elif op == sc.SUBPATTERN:
+                parts.append(seq(av[3]))
+            elif op == sc.BRANCH:
+                parts.append(z3.Union(*[seq(b) for b in av[1]]))
+            elif op == sc.CATEGORY:
+                parts.append(cls_item(op, av))
+            elif op == sc.AT:
+                raise Outside("regex anchor inside the pattern")
+            else:
+                raise Outside("regex construct " + str(op))
+        if not parts:
+            return z3.Re("")
+        return z3.Concat(*parts) if len(parts) > 1 else parts[0]
+
+    items = list(sp.parse(pattern))
+    anchored_start = anchored_end = False
+    if items and items[0][0] == sc.AT and items[0][1] in (sc.AT_BEGINNING, sc.AT_BEGINNING_STRING):
+        anchored_start = True
+        items = items[1:]
+    if items and items[-1][0] == sc.AT and items[-1][1] == sc.AT_END_STRING:
+        anchored_end = True
+        items = items[:-1]
+    return seq(items), anchored_start, anchored_end
+
+
 def regex_run(I, rx, mode, s):
-    raise Outside("regex on symbolic string")
+    from .interp import MatchObj
+    pat = rx.pattern
+    if mode == "fullmatch" and isinstance(pat, str) and isinstance(s, SStr) and not rx.flags:
+        r, _, _ = regex_to_z3(pat)
+        if I.ctx.branch(SBool(z3.InRe(s.t, r))):
+            return MatchObj([s])
+        return None
+    if pat == r"\W+" and mode == "search":
+        if not isinstance(s, SStr):
+            import re
+            return MatchObj([re.search(pat, s).group(0)]) if re.search(pat, s) else None
+        word = z3.Union(z3.Range("a", "z"), z3.Range("A", "Z"), DIG, z3.Re("_"))
+        ascii_nonword = z3.Intersect(z3.Range(chr(0), chr(0x7f)), z3.Complement(word))
+        # (Complement of a character class also contains longer strings: restrict to one character)
+        ascii_nonword = z3.Intersect(ascii_nonword, z3.Loop(re_any(), 1, 1))
+        anyc = z3.Star(re_any())
+        if I.ctx.branch(SBool(z3.InRe(s.t, z3.Concat(anyc, ascii_nonword, anyc)))):
+            return MatchObj([I.ctx.fresh_str("match")])
+        if I.ctx.branch(SBool(z3.InRe(s.t, z3.Concat(anyc, re_nonascii(), anyc)))):
+            # a non-ASCII character is a word character iff it is alphanumeric: not modelled, either outcome
+            I.ctx.notes.append(("imprecise", "\\W on a non-ASCII character"))
+            if I.ctx.branch(I.ctx.fresh_bool("nonascii_nonword")):
+                return MatchObj([I.ctx.fresh_str("match")])
+        return None
+    raise Outside("regex on symbolic string: " + repr(pat))
